@@ -53,6 +53,7 @@ def itemToks (s : String) : Option (List Tok × Nat × Bool) :=
   | 'g' :: r => do
     let h ← natOf (String.ofList r)
     if h < 18 then none else some ([.head h .none], h, false)
+  | ['m'] => some ([.head 14 .none], 14, false)
   | 'l' :: r => do
     let (hs, ns) ← splitOnce (String.ofList r) ':'
     let h ← natOf hs
@@ -163,7 +164,7 @@ def statuses (s : Sim) : List Nat :=
 
 /-- fold the machine over the trace; compare counters -/
 def absCheck (s : Sim) : String :=
-  let cfg : Cfg := { wbs := s.wbs, readCap := s.seg, minHead := 16 }
+  let cfg : Cfg := { wbs := s.wbs, readCap := s.seg, minHead := 14 }
   match DispBounds.runW cfg DispBounds.initW s.trace.reverse with
   | none => " GUARD!"
   | some x =>
